@@ -75,7 +75,7 @@ func paramObjs(fi *FuncInfo) map[int]types.Object {
 // argExprs maps parameter indices (receiver = -1) to the argument expressions of a static call.
 func argExprs(c *ast.CallExpr, callee *FuncInfo) map[int]ast.Expr {
 	res := map[int]ast.Expr{}
-	if callee.Decl.Recv != nil {
+	if callee.Lit == nil && callee.Decl != nil && callee.Decl.Recv != nil {
 		if sel, ok := ast.Unparen(c.Fun).(*ast.SelectorExpr); ok {
 			res[-1] = sel.X
 		}
